@@ -92,6 +92,12 @@ def ctype_of(decl_type) -> str:
     base = {"int32_t": "int", "int": "int", "double": "double", "bool": "bool", "_Bool": "bool",
             "taco_tensor_t": "tensor", "size_t": "long", "unsigned long": "long", "long long": "long",
             "int64_t": "long"}.get(base, base)
+    if base not in ("int", "double", "bool", "tensor", "long", "void"):
+        # the IR has int32 / double / boolean / tensor and pointers to them: any other C type (float, unsigned,
+        # short, ...) changes the arithmetic and is not modelled - reported, never silently read as int/double
+        from .kse import Violation
+
+        raise Violation("ill-formed", ("emitted C declares a type the IR does not have", base))
     return base + "*" * depth
 
 
@@ -205,7 +211,9 @@ class CExec:
                 ty = e.expr
                 names = ty.type.type.names if isinstance(ty, c_ast.Typename) else None
                 if names is None or " ".join(names) not in SIZEOF:
-                    raise HarnessError("sizeof of unsupported type")
+                    from .kse import Violation
+
+                    raise Violation("ill-formed", ("emitted C takes sizeof of a type the IR does not have", " ".join(names or ["?"])))
                 return Bytes(1, SIZEOF[" ".join(names)])
             if e.op == "-":
                 v = self.ev(e.expr)
